@@ -1231,6 +1231,222 @@ Proof.
   rewrite wrf_sum_self_zero; auto. apply (lmap_NoDup t root r G HP).
 Qed.
 
+
+(* ================================================================================================ *)
+(* H. the root-placement correction, at the level of leaf sets                                       *)
+(* ================================================================================================ *)
+Section RootSplit.
+Variables (t : arena) (root : nat) (r : rtree).
+Hypothesis G : Good t root r.
+
+(* a two-child root: both branches induce the same split *)
+Lemma root2_same_split a b : rch r = [a; b] -> part_of t a = part_of t b.
+Proof.
+  intros Hch. unfold part_of. apply canon_clade_bits_iff. right. intros x Hx.
+  destruct r as [i cs]. simpl in Hch. subst cs.
+  pose proof (g_uniq _ _ _ G) as Hu. rewrite rleaves_cons in Hu. cbn [flat_map] in Hu.
+  rewrite app_nil_r, map_app in Hu. apply NoDup_app_iff in Hu as (_ & _ & Hdis).
+  apply (leaf_idx_In t root _ G) in Hx as (j & Hj & <-).
+  rewrite rleaves_cons in Hj. cbn [flat_map] in Hj. rewrite app_nil_r in Hj. apply in_app_iff in Hj.
+  unfold clade. split.
+  - intros Ha Hb. apply (Hdis _ Ha Hb).
+  - intros Hb. destruct Hj as [Hj|Hj]; [apply in_map; auto|]. exfalso. apply Hb. apply in_map; auto.
+Qed.
+
+Lemma root_bits_two a b : rch r = [a; b] -> forall x, In x (root_bits t r) <-> x = part_of t a.
+Proof.
+  intros Hch x. unfold root_bits. rewrite Hch. cbn [map In]. rewrite <- (root2_same_split a b Hch).
+  split; [intros [H|[H|[]]]; auto|auto].
+Qed.
+
+End RootSplit.
+
+(* both roots have two children: the root splits agree iff the leaf sets below the first children
+   form the same bipartition *)
+Theorem same_root_two t1 t2 root1 root2 r1 r2 a1 b1 a2 b2 :
+  Good t1 root1 r1 -> Good t2 root2 r2 -> leaf_idx t1 = leaf_idx t2 ->
+  rch r1 = [a1; b1] -> rch r2 = [a2; b2] ->
+  same_root_bits (root_bits t1 r1) (root_bits t2 r2) = true <->
+  same_split (map (lab t1) (rleaves r1)) (clade (lab t1) a1) (clade (lab t2) a2).
+Proof.
+  intros G1 G2 E H1 H2. rewrite same_root_bits_spec.
+  rewrite <- (partitions_same_split t1 root1 r1 G1).
+  change (canon (clade_bits (leaf_idx t1) (clade (lab t1) a1))) with (part_of t1 a1).
+  rewrite E. change (canon (clade_bits (leaf_idx t2) (clade (lab t2) a2))) with (part_of t2 a2).
+  split.
+  - intros H. apply (root_bits_two t2 root2 r2 G2 a2 b2 H2). apply H.
+    apply (root_bits_two t1 root1 r1 G1 a1 b1 H1). reflexivity.
+  - intros H x. rewrite (root_bits_two t1 root1 r1 G1 a1 b1 H1), (root_bits_two t2 root2 r2 G2 a2 b2 H2), H.
+    tauto.
+Qed.
+
+(* the complete value for two trees with two-child roots *)
+Theorem rf_rooted t1 t2 root1 root2 r1 r2 a1 b1 a2 b2 :
+  Good t1 root1 r1 -> Good t2 root2 r2 -> leaf_idx t1 = leaf_idx t2 ->
+  rch r1 = [a1; b1] -> rch r2 = [a2; b2] ->
+  let k := rf_split (part_keys t1 r1) (part_keys t2 r2) in
+  (k = 0 \/ same_split (map (lab t1) (rleaves r1)) (clade (lab t1) a1) (clade (lab t2) a2) ->
+   robinson_foulds O (tree_of t1) (tree_of t2) = Ok (k, TC t1 r1, TC t2 r2)) /\
+  (k <> 0 -> ~ same_split (map (lab t1) (rleaves r1)) (clade (lab t1) a1) (clade (lab t2) a2) ->
+   robinson_foulds O (tree_of t1) (tree_of t2) = Ok (k + 2, TC t1 r1, TC t2 r2)).
+Proof.
+  intros G1 G2 E H1 H2 k.
+  destruct (rf_refines t1 t2 root1 root2 r1 r2 G1 G2 E) as (-> & _).
+  pose proof (same_root_two t1 t2 root1 root2 r1 r2 a1 b1 a2 b2 G1 G2 E H1 H2) as Hs.
+  unfold rf_value, rf_corr, two_rooted. rewrite H1, H2. cbn [length Nat.eqb andb]. fold k.
+  split.
+  - intros [Hk|Hss].
+    + rewrite Hk. cbn. reflexivity.
+    + apply Hs in Hss. rewrite Hss, andb_false_r, Nat.add_0_r. reflexivity.
+  - intros Hk Hss. apply Nat.eqb_neq in Hk. rewrite Hk.
+    destruct (same_root_bits _ _); [exfalso; apply Hss, Hs; reflexivity|]. reflexivity.
+Qed.
+
+
+(* ================================================================================================ *)
+(* I. the split count at the level of leaf-name sets (rsplits modulo same_split)                     *)
+(* ================================================================================================ *)
+(* decidable same_split *)
+Definition ssb (X S S' : list str) : bool :=
+  forallb (fun x => Bool.eqb (mem_str x S) (mem_str x S')) X ||
+  forallb (fun x => Bool.eqb (mem_str x S) (negb (mem_str x S'))) X.
+
+Lemma ssb_spec X S S' : ssb X S S' = true <-> same_split X S S'.
+Proof.
+  unfold ssb, same_split. rewrite orb_true_iff, !forallb_forall.
+  assert (H1 : forall x, Bool.eqb (mem_str x S) (mem_str x S') = true <-> (In x S <-> In x S')).
+  { intros x. rewrite eqb_true_iff, <- !mem_str_In. destruct (mem_str x S), (mem_str x S'); intuition congruence. }
+  assert (H2 : forall x, Bool.eqb (mem_str x S) (negb (mem_str x S')) = true <-> (In x S <-> ~ In x S')).
+  { intros x. rewrite eqb_true_iff, <- !mem_str_In. destruct (mem_str x S), (mem_str x S'); simpl; intuition congruence. }
+  split; (intros [H|H]; [left|right]; intros x Hx; specialize (H x Hx)); first [apply H1; assumption|apply H2; assumption].
+Qed.
+
+(* keep one representative per class (the last occurrence) *)
+Fixpoint dedup_by {A} (eqv : A -> A -> bool) (l : list A) : list A :=
+  match l with
+  | [] => []
+  | x :: t => if existsb (eqv x) t then dedup_by eqv t else x :: dedup_by eqv t
+  end.
+
+Lemma dedup_by_incl {A} (eqv : A -> A -> bool) l x : In x (dedup_by eqv l) -> In x l.
+Proof.
+  induction l as [|y l IH]; simpl; auto. destruct (existsb (eqv y) l); simpl; intuition.
+Qed.
+
+Lemma dedup_by_image {A} (c : A -> bits) (eqv : A -> A -> bool) l :
+  (forall x y, eqv x y = true <-> c x = c y) ->
+  NoDup (map c (dedup_by eqv l)) /\ forall b, In b (map c (dedup_by eqv l)) <-> In b (map c l).
+Proof.
+  intros Hc. induction l as [|x l [IH1 IH2]]; simpl.
+  - split; [constructor|tauto].
+  - destruct (existsb (eqv x) l) eqn:E.
+    + split; auto. intros b. rewrite IH2. split; auto. intros [<-|H]; auto.
+      apply existsb_exists in E as (y & Hy & Hxy). apply Hc in Hxy. rewrite Hxy. apply in_map. auto.
+    + simpl. split.
+      * constructor; auto. rewrite IH2. intros H. apply in_map_iff in H as (y & Hy & Hin).
+        apply not_true_iff_false in E. apply E. apply existsb_exists. exists y. split; auto. apply Hc. auto.
+      * intros b. rewrite IH2. tauto.
+Qed.
+
+(* the splits of A without a counterpart in B, one per class *)
+Definition only_in (X : list str) (A B : list (list str)) : list (list str) :=
+  dedup_by (ssb X) (filter (fun S => negb (existsb (ssb X S) B)) A).
+Definition count_only (X : list str) (A B : list (list str)) : nat := length (only_in X A B).
+
+Lemma diff_count_spec (c : list str -> bits) X A B ps1 ps2 :
+  (forall S S', ssb X S S' = true <-> c S = c S') ->
+  NoDup ps1 -> (forall b, In b ps1 <-> In b (map c A)) -> (forall b, In b ps2 <-> In b (map c B)) ->
+  diff_count ps1 ps2 = count_only X A B.
+Proof.
+  intros Hc Hnd H1 H2. unfold diff_count, count_only, only_in.
+  destruct (dedup_by_image c (ssb X) (filter (fun S => negb (existsb (ssb X S) B)) A) Hc) as [Hd1 Hd2].
+  rewrite <- (map_length c (dedup_by _ _)). apply Permutation_length.
+  apply NoDup_Permutation; auto using NoDup_filter.
+  intros b. rewrite Hd2, filter_In, negb_true_iff, mem_bits_false, H1, H2, !in_map_iff. split.
+  - intros ((S & <- & HS) & Hno). exists S. split; auto. apply filter_In. split; auto.
+    apply negb_true_iff, not_true_iff_false. intros Hex. apply existsb_exists in Hex as (S' & HS' & Hss).
+    apply Hno. exists S'. split; auto. symmetry. apply Hc. auto.
+  - intros (S & <- & HS). apply filter_In in HS as [HS Hno]. split; [eauto|].
+    intros (S' & E & HS'). apply negb_true_iff, not_true_iff_false in Hno. apply Hno.
+    apply existsb_exists. exists S'. split; auto. apply Hc. auto.
+Qed.
+
+Section SpecCount.
+Variables (t1 t2 : arena) (root1 root2 : nat) (r1 r2 : rtree).
+Hypothesis G1 : Good t1 root1 r1.
+Hypothesis G2 : Good t2 root2 r2.
+Hypothesis E : leaf_idx t1 = leaf_idx t2.
+
+Let X := map (lab t1) (rleaves r1).
+Let A1 := rsplits (lab t1) r1.
+Let A2 := rsplits (lab t2) r2.
+Let c := fun S : list str => canon (clade_bits (leaf_idx t1) S).
+
+Lemma ssb_c S S' : ssb X S S' = true <-> c S = c S'.
+Proof. rewrite ssb_spec. symmetry. apply (partitions_same_split t1 root1 r1 G1). Qed.
+
+Lemma keys1_c b : In b (part_keys t1 r1) <-> In b (map c A1).
+Proof.
+  rewrite (partitions_spec O t1 root1 r1 G1 _ _ (get_partitions_pm t1 root1 r1 G1)), in_map_iff.
+  split; intros (S & H1 & H2); exists S; auto.
+Qed.
+
+Lemma keys2_c b : In b (part_keys t2 r2) <-> In b (map c A2).
+Proof.
+  rewrite (partitions_spec O t2 root2 r2 G2 _ _ (get_partitions_pm t2 root2 r2 G2)), in_map_iff.
+  unfold c. rewrite E. split; intros (S & H1 & H2); exists S; auto.
+Qed.
+
+(* 1'. the number of reported bitsets of one tree absent from the other = number of its non-trivial
+   splits (as leaf-name bipartitions) that the other tree does not have *)
+Theorem diff_count_splits :
+  diff_count (part_keys t1 r1) (part_keys t2 r2) = count_only X A1 A2 /\
+  diff_count (part_keys t2 r2) (part_keys t1 r1) = count_only X A2 A1.
+Proof.
+  split; apply (diff_count_spec c); auto using ssb_c, keys1_c, keys2_c.
+  - apply (part_keys_NoDup t1 root1 r1 G1).
+  - apply (part_keys_NoDup t2 root2 r2 G2).
+Qed.
+
+Theorem rf_split_spec :
+  rf_split (part_keys t1 r1) (part_keys t2 r2) = count_only X A1 A2 + count_only X A2 A1.
+Proof. unfold rf_split. destruct diff_count_splits as [-> ->]. reflexivity. Qed.
+
+(* what the representative lists are (B is any list of splits) *)
+Theorem only_in_spec (A B : list (list str)) :
+  (forall S, In S (only_in X A B) -> In S A /\ forall S', In S' B -> ~ same_split X S S') /\
+  (forall S, In S A -> (forall S', In S' B -> ~ same_split X S S') ->
+             exists S0, In S0 (only_in X A B) /\ same_split X S S0) /\
+  ForallOrdPairs (fun S S' => ~ same_split X S S') (only_in X A B).
+Proof.
+  unfold only_in.
+  destruct (dedup_by_image c (ssb X) (filter (fun S => negb (existsb (ssb X S) B)) A) ssb_c) as [Hd1 Hd2].
+  split; [|split].
+  - intros S HS. apply dedup_by_incl in HS. apply filter_In in HS as [HS Hno]. split; auto.
+    intros S' HS' Hss. apply negb_true_iff, not_true_iff_false in Hno. apply Hno.
+    apply existsb_exists. exists S'. split; auto. apply ssb_spec. auto.
+  - intros S HS Hno.
+    assert (Hin : In (c S) (map c (filter (fun S => negb (existsb (ssb X S) B)) A))).
+    { apply in_map. apply filter_In. split; auto. apply negb_true_iff, not_true_iff_false.
+      intros Hex. apply existsb_exists in Hex as (S' & HS' & Hss). apply (Hno S' HS'). apply ssb_spec. auto. }
+    apply Hd2 in Hin. apply in_map_iff in Hin as (S0 & E0 & HS0). exists S0. split; auto.
+    apply ssb_spec, ssb_c. auto.
+  - revert Hd1. generalize (dedup_by (ssb X) (filter (fun S => negb (existsb (ssb X S) B)) A)) as D.
+    induction D as [|S D IH]; intros Hnd; [constructor|]. simpl in Hnd. apply NoDup_cons_iff in Hnd as [Hn Hnd].
+    constructor; auto. apply Forall_forall. intros S' HS' Hss. apply Hn.
+    apply ssb_spec, ssb_c in Hss. rewrite Hss. apply in_map. auto.
+Qed.
+
+(* the full statement for roots that are not both two-child *)
+Theorem rf_spec_unrooted :
+  (length (rch r1) <> 2 \/ length (rch r2) <> 2) ->
+  robinson_foulds O (tree_of t1) (tree_of t2) = Ok (count_only X A1 A2 + count_only X A2 A1, TC t1 r1, TC t2 r2).
+Proof.
+  intros H. rewrite (rf_unrooted t1 t2 root1 root2 r1 r2 G1 G2 E H). rewrite rf_split_spec. reflexivity.
+Qed.
+
+End SpecCount.
+
 End RFArena.
 
 (* ================================================================================================ *)
